@@ -37,6 +37,7 @@ type Engine struct {
 	tier    string
 	workers int
 
+	fnInfos sync.Map
 	pmMu    sync.Mutex
 	pmCache map[*ssa.Function]*ssa.Function
 
@@ -207,9 +208,13 @@ func (h *HarnessRun) addViolation(v *Violation) {
 }
 
 type Worker struct {
-	id  int
-	ts  *TermStore
-	sol *Solver
+	id         int
+	ts         *TermStore
+	sol        *Solver
+	stdGlobals map[*ssa.Global]*Value
+	stdInit    map[string]bool
+	consts     map[*ssa.Const]Value
+	envPool    map[*fnInfo][][]Value
 }
 
 func (e *Engine) findHarness(name string) (*ssa.Package, *ssa.Function) {
@@ -256,7 +261,7 @@ func (e *Engine) RunHarness(name string, maxPaths int, timeout time.Duration) *H
 				sol.dumpLimit = 40
 			}
 			defer sol.Close()
-			w := &Worker{id: id, ts: NewTermStore(), sol: sol}
+			w := &Worker{id: id, ts: NewTermStore(), sol: sol, stdGlobals: map[*ssa.Global]*Value{}, stdInit: map[string]bool{}, consts: map[*ssa.Const]Value{}, envPool: map[*fnInfo][][]Value{}}
 			npaths := 0
 			for {
 				mu.Lock()
@@ -285,6 +290,10 @@ func (e *Engine) RunHarness(name string, maxPaths int, timeout time.Duration) *H
 					npaths++
 					if npaths%2000 == 0 {
 						w.ts = NewTermStore()
+						w.stdGlobals = map[*ssa.Global]*Value{}
+						w.stdInit = map[string]bool{}
+						w.consts = map[*ssa.Const]Value{}
+						w.envPool = map[*fnInfo][][]Value{}
 					}
 				}
 				mu.Lock()
@@ -325,7 +334,7 @@ func mergeStats(a, b *SolverStats) {
 
 func (e *Engine) execPath(w *Worker, h *HarnessRun, prefix []int) (newTasks [][]int) {
 	x := &Exec{eng: e, w: w, ts: w.ts, sol: w.sol, h: h, prefix: prefix,
-		globals: map[*ssa.Global]*Value{}, covers: map[string]bool{}, side: map[string]Value{}, funcs: map[string]int{}, lit: map[*Term]bool{}}
+		globals: map[*ssa.Global]*Value{}, covers: map[string]bool{}, side: map[string]Value{}, funcs: map[*ssa.Function]int{}, lit: map[*Term]bool{}}
 	w.sol.record = e.dumpDir != ""
 	w.sol.script = w.sol.script[:0]
 	w.sol.Push()
@@ -409,7 +418,7 @@ func (e *Engine) execPath(w *Worker, h *HarnessRun, prefix []int) (newTasks [][]
 		h.Limits[msg]++
 	}
 	for f, n := range x.funcs {
-		h.Funcs[f] += n
+		h.Funcs[x.eng.funcInfo(f).name] += n
 	}
 	h.mu.Unlock()
 	return x.newTasks
